@@ -427,7 +427,7 @@ def json_takes(t):
     return isinstance(d, dict) and all(isinstance(v, str) for v in d.values())
 
 
-def eval_ldcases(ck, name, cases):
+def eval_ldcases(ck, name, cases, qps=()):
     """model/ReadLabelDoc.v on the rows encoding/json refuses (byte codes): no row panics, and JSON documents + documents the
     fallback decodes = series answered"""
     items = []
@@ -439,6 +439,12 @@ def eval_ldcases(ck, name, cases):
            "Definition cases : list ldcase := [\n  " + ";\n  ".join(items) + "].\n"
            "Definition P := Eval vm_compute in map (fun c => (if fst (ld_predicted c) then 0 else 1000) + snd (ld_predicted c)) cases.\nPrint P.\n"
            "Definition M := Eval vm_compute in ld_mismatches cases.\nPrint M.\n")
+    # round 8: what the real strconv.QuotedPrefix answered on sampled texts (0 = error, else len(q)) against qp_scan and the
+    # contract of the termination theorem (same Coq file: one start-up)
+    qitems = ["mkQP %d %s %d" % (k, coq_list([str(b) for b in bytes.fromhex(s["hex"])]), s["real"]) for k, s in enumerate(qps)]
+    txt += ("Definition qpcases : list qpcase := [\n  " + ";\n  ".join(qitems) + "].\n"
+            "Definition QM := Eval vm_compute in qp_mismatches qpcases.\nPrint QM.\n"
+            "Definition QC := Eval vm_compute in qp_contract_violations qpcases.\nPrint QC.\n")
     rc, out = ck.coq_eval(name, txt)
     if rc != 0:
         return None, out
@@ -448,7 +454,11 @@ def eval_ldcases(ck, name, cases):
     if not mp or not mm:
         return None, out
     ints = lambda t: [int(x) for x in re.findall(r"\d+", t)]
-    return {"P": ints(mp.group(1)), "M": ints(mm.group(1))}, out
+    mq = re.search(r"\bQM = (\[.*?\]|nil)\s*: list nat", flat)
+    mc = re.search(r"\bQC = (\[.*?\]|nil)\s*: list nat", flat)
+    if not mq or not mc:
+        return None, out
+    return {"P": ints(mp.group(1)), "M": ints(mm.group(1)), "QM": ints(mq.group(1)), "QC": ints(mc.group(1))}, out
 
 
 def shrink_rows(ck, c, still_bad):
@@ -764,10 +774,27 @@ def run(ck):
     # ... and what the Coq model of the decoder says about the same rows (cut documents and corpus; not the mutants: the model's
     # QuotedPrefix does not validate escapes)
     tied = [c for c in judged if "labeldoc-mutant" not in c["class"] and c["obs"].get("items") is not None and c["obs"]["items"] >= 0]
-    ldres, ldout = eval_ldcases(ck, "C12_ldcases", tied) if tied else ({"P": [], "M": []}, "")
+    # round 8: the hypothesis of the termination theorem (stored_label_decoder_terminates) on the REAL strconv.QuotedPrefix: every
+    # suffix of every row of this run's label-document requests; a sample of the answers goes to Coq next to the cases
+    qprep = run_harness(ck, ["--qpcontract", "--seed", ck.seed, "--n", ck.n(150, 3000)], "qpcontract") if ldoc else None
+    qp = qprep[0] if qprep else {"rows": 0, "calls": 0, "accepted": 0, "min_len": -1, "max_len": 0, "violations": [], "samples": []}
+    if ldoc:
+        ck.obligation("strconv.QuotedPrefix meets the contract of the termination theorem (err == nil -> q is a prefix of s, 2 <= len(q) <= len(s)) on all %d suffixes "
+                      "of the %d distinct label-document rows of this run (%d accepted, prefixes of %d..%d bytes)" % (qp["calls"], qp["rows"], qp["accepted"], qp["min_len"], qp["max_len"]),
+                      bool(qprep) and not qp["violations"] and qp["accepted"] > 0 and qp["min_len"] >= 2, "violations %s" % qp["violations"][:5])
+        ck.extra["quoted_prefix_contract"] = {k: qp[k] for k in ("rows", "calls", "accepted", "min_len", "max_len")}
+        ck.extra["quoted_prefix_contract"]["samples_in_coq"] = len(qp["samples"])
+        ck.extra["quoted_prefix_contract"]["samples_accepted"] = sum(1 for s in qp["samples"] if s["real"])
+    ldres, ldout = eval_ldcases(ck, "C12_ldcases", tied, qp["samples"]) if tied else ({"P": [], "M": [], "QM": [], "QC": []}, "")
     if ldres is None:
         ck.obligation("label-document cases evaluated inside Coq", False, ldout[-1500:])
         return
+    if tied:
+        unhex = lambda k: bytes.fromhex(qp["samples"][k]["hex"]).decode("utf-8", "backslashreplace")
+        ck.obligation("correspondence: ReadLabelDoc.qp_scan = len(strconv.QuotedPrefix(s)) (0 = refused) and qp_contract_ok, inside Coq, on %d texts cut from the documents "
+                      "at a double quote (%d accepted)" % (len(qp["samples"]), sum(1 for s in qp["samples"] if s["real"])),
+                      not ldres["QM"] and not ldres["QC"],
+                      "scanner differs on %s; contract broken on %s" % ([(unhex(k), qp["samples"][k]["real"]) for k in ldres["QM"][:5]], [unhex(k) for k in ldres["QC"][:5]]))
     ck.obligation("correspondence: ReadLabelDoc.stored_labels_fallback (no row panics; JSON documents + documents the fallback decodes) = series answered, on %d series requests / %d rows" % (
                       len(tied), sum(len(c["script"][0]["rows"]) for c in tied)),
                   not ldres["M"], "mismatching %s" % [(tied[k]["id"], tied[k]["class"], "model %d" % ldres["P"][k], "observed %s" % tied[k]["obs"].get("items")) for k in ldres["M"][:6]])
